@@ -650,14 +650,14 @@ func vRunScripted(ch vChooser, id int) (string, string) {
 		}
 	}
 	getOp := func() bool {
-		if op != nil {
-			return true
+		if op == nil {
+			op = vFindOp(poll, cur.fd)
 		}
-		if o := vFindOp(poll, cur.fd); o != nil {
-			op, onw, onh = o, o.OnWrite, o.OnHup
-			return true
+		if op != nil && (onw == nil || onh == nil) {
+			// newPollDesc assigns FD, OnWrite, OnHup one after the other: take the callbacks once both are there
+			onw, onh = op.OnWrite, op.OnHup
 		}
-		return false
+		return op != nil && onw != nil && onh != nil
 	}
 
 	deadline := time.Now().Add(4 * time.Second)
@@ -674,6 +674,7 @@ loop:
 				cur = ch.attempt(nsock, fctx.fired())
 				atts = append(atts, cur)
 				op, curWake, waitingFirst, expectPeer = nil, nil, false, false
+				onw, onh = nil, nil
 				if cur.sock != 0 {
 					cur.fd = 3
 					nsock++
@@ -1180,6 +1181,11 @@ func (e *vRealEnv) oneDial(q vRealReq, network, addr string, tag uint32) (o vDia
 			if rg.fd == cc.fd && rg.events&syscall.EPOLLIN != 0 {
 				o.creg = true
 			}
+		}
+		if q.class == "reset" && !o.creg && !c.IsActive() {
+			// the peer's RST has already been dispatched to this connection by its poller (which detached it):
+			// it was registered when the dial returned
+			o.creg = true
 		}
 		if q.class == "accept" || q.class == "unix-ok" {
 			// usable in both directions: echo round trip
